@@ -1,5 +1,7 @@
 import TSSVerif.Model.Net
 import TSSVerif.Gen.Net
+import TSSVerif.Gen.Stmts
+import TSSVerif.Model.StmtsExpected
 /-!
 # C17 — the transport frames faithfully and isolates a failing peer
 
@@ -426,5 +428,11 @@ example :
     outsFor 1 (({ cap := 1 } : SendSt).run [.enq 2 0 exF1, .enq 2 0 exF2, .enq 1 0 exF1, .fail 2, .write 1, .enq 1 1 exF2, .write 1]).2
       = [.accepted 1 0 exF1, .wrote 1 [0, 1, 0, 0, 0, 1], .accepted 1 1 exF2, .wrote 1 [0, 1, 0, 0, 0, 2]] := by
   decide
+
+/-- **The source the model was transcribed from is the current source**: the statements of `readMsg`, `handleConn`, `remoteParty.send`, `maybeConnect`, `sendMessages`, `outChan.enqueue`, `SocketRemoteParties.Send`, `ServiceConnections`, the handshake codec, regenerated from
+`/repo` on this run, are the committed ones (logging left out). A change of any of them — harmless or not — fails here
+first; the differential and monitored runs of this property are then the search for an input on which it fails. -/
+theorem source_as_modelled : TSSVerif.Gen.Stmts.net = TSSVerif.Model.StmtsExpected.net := by
+  decide +kernel
 
 end TSSVerif.Props.C17
